@@ -388,6 +388,8 @@ class World:
             out.append(f'[TASK JOB SUMMARY]{t}|{ctx.get_summary_str()}')
             if job is not None:
                 for msg in job.emitted:
+                    if msg == 'vanished':
+                        continue
                     out.append(f'[TASK JOB MESSAGE]{t}|{path}|{t}|INFO|{msg}')
         return '\n'.join(out) + '\n'
 
